@@ -11,7 +11,7 @@ import (
 
 func init() {
 	props["C13"] = &propDef{
-		rule: "cases = (a) every byte string over {00,01,02,03,7f} up to the tier's length through EBSPWriter.Write(b,8) and EBSPReader (exhaustive), (b) random width/value/ue/se/flag sequences written by Writer, FixedSliceWriter and EBSPWriter and read back by Reader/EBSPReader; non-trivial = distinct request whose escaped output differs from the plain bytes or which contains an Exp-Golomb code of >= 3 bits or a field of >= 9 bits",
+		rule: "cases = (a) every byte string over {00,01,02,03,7f} up to the tier's length through EBSPWriter.Write(b,8) and EBSPReader (exhaustive), (b) random width/value/ue/se/flag/byte-run sequences written by Writer, FixedSliceWriter and EBSPWriter and read back by Reader (Read, ReadSigned, ReadFlag, ReadRemainingBytes) / EBSPReader (Read, ReadFlag, ReadExpGolomb, ReadSignedGolomb, ReadBytes(0..40) at any bit position), with NrBytesRead/NrBitsRead asked at arbitrary points in the middle; non-trivial = distinct request whose escaped output differs from the plain bytes or which contains an Exp-Golomb code of >= 3 bits or a field of >= 9 bits",
 		gen:  genC13,
 		exec: execC13,
 	}
@@ -95,8 +95,28 @@ func execC13Inner(op string, a []string) string {
 		r := bits.NewReader(bytes.NewReader(data))
 		vals := []string{}
 		for _, x := range a[1:] {
-			v := r.Read(int(u(x)))
-			vals = append(vals, strconv.FormatUint(uint64(v), 10))
+			switch {
+			case x == "f": // Reader.ReadFlag
+				if r.ReadFlag() {
+					vals = append(vals, "1")
+				} else {
+					vals = append(vals, "0")
+				}
+			case x == "po": // position counters in the middle of a sequence
+				vals = append(vals, fmt.Sprintf("p%d.%d", r.NrBytesRead(), r.NrBitsRead()))
+			case x == "rem": // Reader.ReadRemainingBytes
+				b := r.ReadRemainingBytes()
+				if b == nil {
+					vals = append(vals, "nil")
+				} else {
+					vals = append(vals, "x"+hx(b))
+				}
+			case strings.HasPrefix(x, "s"): // Reader.ReadSigned(k), k >= 1
+				vals = append(vals, strconv.Itoa(r.ReadSigned(int(u(x[1:])))))
+			default:
+				v := r.Read(int(u(x)))
+				vals = append(vals, strconv.FormatUint(uint64(v), 10))
+			}
 			if r.AccError() != nil {
 				break
 			}
@@ -145,8 +165,10 @@ func execC13Inner(op string, a []string) string {
 				if b == nil {
 					vals = append(vals, "nil")
 				} else {
-					vals = append(vals, hx(b))
+					vals = append(vals, "x"+hx(b))
 				}
+			case "po": // position counters in the middle of a sequence
+				vals = append(vals, fmt.Sprintf("p%d.%d", r.NrBytesRead(), r.NrBitsRead()))
 			default:
 				return "bad-op"
 			}
@@ -198,6 +220,37 @@ func escRef(data []byte) []byte {
 		}
 		out = append(out, b)
 		if b == 0 {
+			z++
+		} else {
+			z = 0
+		}
+	}
+	return out
+}
+
+// length in bits of the Exp-Golomb code of v
+func ueLen(v uint64) int {
+	l := 0
+	for x := v + 1; x > 1; x >>= 1 {
+		l++
+	}
+	return 2*l + 1
+}
+
+func posStr(nb, nbits int) string { return fmt.Sprintf("p%d.%d", nb, nbits) }
+
+// escapedUpTo[i] = number of bytes of the escaped stream up to and including payload byte i, where the payload is the
+// stream without its emulation prevention bytes (ISO/IEC 14496-10 7.4.1; independent of the Lean model)
+func escapedUpTo(esc []byte) []int {
+	var out []int
+	z := 0
+	for i := 0; i < len(esc); i++ {
+		if z == 2 && esc[i] == 3 {
+			z = 0
+			continue
+		}
+		out = append(out, i+1)
+		if esc[i] == 0 {
 			z++
 		} else {
 			z = 0
@@ -268,11 +321,58 @@ func genC13(c *Ctx) {
 		nops := 1 + c.R.Intn(12)
 		var wops, rops []string   // ebsp writer / reader ops
 		var pw []string            // plain writer ops (widths only)
+		var prd, pexp []string     // plain reader ops (Read / ReadSigned / ReadFlag / counters) and their expected values
 		var expect []string
+		var bitPos []int           // payload bit position at which each "po" element of rops was placed
+		nbit := 0                  // payload bits written so far
+		withPos := c.R.Intn(3) == 0
 		plainOK := true
 		nontriv := false
 		for j := 0; j < nops; j++ {
-			switch c.R.Intn(10) {
+			if withPos && c.R.Intn(2) == 0 {
+				// byte/bit counters asked in the middle of the sequence, at any bit position
+				rops = append(rops, "po")
+				prd = append(prd, "po")
+				expect = append(expect, "?")
+				pexp = append(pexp, posStr((nbit+7)/8, nbit))
+				bitPos = append(bitPos, nbit)
+				c.Count("op.po")
+			}
+			switch c.R.Intn(12) {
+			case 10, 11:
+				// a run of whole bytes written one by one and fetched with one ReadBytes(n), at any bit position
+				var n int
+				switch c.R.Intn(3) {
+				case 0:
+					n = c.R.Intn(41)
+				case 1:
+					n = []int{0, 1, 7, 8, 9, 15, 16, 17, 24, 31, 32, 33, 40}[c.R.Intn(13)]
+				default:
+					n = c.R.Intn(5)
+				}
+				run := make([]byte, n)
+				zeroHeavy := c.R.Intn(2) == 0
+				for k := range run {
+					if zeroHeavy {
+						run[k] = []byte{0, 0, 0, 1, 2, 3, 0x80, 0xff}[c.R.Intn(8)]
+					} else {
+						run[k] = byte(c.R.Intn(256))
+					}
+					wops = append(wops, fmt.Sprintf("w:8:%d", run[k]))
+					pw = append(pw, fmt.Sprintf("8:%d", run[k]))
+					prd = append(prd, "8")
+					pexp = append(pexp, strconv.Itoa(int(run[k])))
+				}
+				rops = append(rops, fmt.Sprintf("by:%d", n))
+				expect = append(expect, "x"+hx(run))
+				nbit += 8 * n
+				if n >= 2 {
+					nontriv = true
+				}
+				c.Count("op.bytes")
+				if nbit%8 != 0 {
+					c.Count("op.bytes.unaligned")
+				}
 			case 0, 1, 2, 3:
 				k := 1 + c.R.Intn(32)
 				var v uint64
@@ -291,6 +391,20 @@ func genC13(c *Ctx) {
 				rops = append(rops, fmt.Sprintf("r:%d", k))
 				pw = append(pw, fmt.Sprintf("%d:%d", k, v))
 				expect = append(expect, strconv.FormatUint(v, 10))
+				if c.R.Intn(3) == 0 {
+					// the plain reader takes the field as a two's complement number
+					sv := int64(v)
+					if v>>(uint(k)-1) == 1 {
+						sv -= int64(1) << uint(k)
+					}
+					prd = append(prd, fmt.Sprintf("s%d", k))
+					pexp = append(pexp, strconv.FormatInt(sv, 10))
+					c.Count("op.signed")
+				} else {
+					prd = append(prd, strconv.Itoa(k))
+					pexp = append(pexp, strconv.FormatUint(v, 10))
+				}
+				nbit += k
 				if k >= 9 {
 					nontriv = true
 				}
@@ -314,6 +428,7 @@ func genC13(c *Ctx) {
 				rops = append(rops, "ue")
 				expect = append(expect, strconv.FormatUint(v, 10))
 				plainOK = false
+				nbit += ueLen(v)
 				if v >= 1 {
 					nontriv = true
 				}
@@ -338,6 +453,7 @@ func genC13(c *Ctx) {
 				rops = append(rops, "se")
 				expect = append(expect, strconv.FormatInt(s, 10))
 				plainOK = false
+				nbit += ueLen(ue)
 				nontriv = true
 				c.Count("op.se")
 			case 8:
@@ -345,7 +461,10 @@ func genC13(c *Ctx) {
 				wops = append(wops, fmt.Sprintf("w:1:%d", b))
 				rops = append(rops, "fl")
 				pw = append(pw, fmt.Sprintf("1:%d", b))
+				prd = append(prd, "f")
+				pexp = append(pexp, strconv.Itoa(b))
 				expect = append(expect, strconv.Itoa(b))
+				nbit++
 				c.Count("op.fl")
 			default:
 				// zero-heavy byte to provoke escapes
@@ -353,7 +472,10 @@ func genC13(c *Ctx) {
 				wops = append(wops, fmt.Sprintf("w:8:%d", v))
 				rops = append(rops, "r:8")
 				pw = append(pw, fmt.Sprintf("8:%d", v))
+				prd = append(prd, "8")
+				pexp = append(pexp, strconv.Itoa(v))
 				expect = append(expect, strconv.Itoa(v))
+				nbit += 8
 				c.Count("op.zbyte")
 			}
 		}
@@ -365,6 +487,24 @@ func genC13(c *Ctx) {
 		outBytes, _ := unhx(hexOut)
 		if hasForbidden(outBytes) {
 			c.Fail("C13-forbidden-triple", "EBSP writer output contains 00 00 0{0,1,2}", wreq, wres, "")
+		}
+		if len(bitPos) > 0 {
+			// counters report positions in the ESCAPED stream: the reader has taken the escaped bytes up to and
+			// including the payload byte that holds the last bit read (7.4.1: a 03 after two 00 is not payload)
+			upTo := escapedUpTo(outBytes)
+			pi := 0
+			for k, o := range rops {
+				if o != "po" {
+					continue
+				}
+				nb := (bitPos[pi] + 7) / 8
+				eb := 0
+				if nb > 0 && nb <= len(upTo) {
+					eb = upTo[nb-1]
+				}
+				expect[k] = posStr(eb, 8*eb-(8*nb-bitPos[pi]))
+				pi++
+			}
 		}
 		rreq := "er " + hexOut + " " + strings.Join(rops, " ")
 		rres := execC13(rreq)
@@ -416,21 +556,38 @@ func genC13(c *Ctx) {
 			if bres != fres {
 				c.Fail("C13-writer-vs-slicewriter", "Writer and FixedSliceWriter.WriteBits differ", breq, bres, fres)
 			}
-			widths := []string{}
-			exp2 := []string{}
-			for _, x := range pw {
-				p := strings.Split(x, ":")
-				widths = append(widths, p[0])
-				exp2 = append(exp2, p[1])
-			}
-			rq := "br " + bres + " " + strings.Join(widths, " ")
+			exp2 := pexp
+			rq := "br " + bres + " " + strings.Join(prd, " ")
 			rs := execC13(rq)
 			c.Case(rq, rs)
 			f2 := strings.Fields(rs)
 			if len(f2) < 2 || f2[0] != strings.Join(exp2, ",") || f2[1] != "ok" {
 				c.Fail("C13-plain-roundtrip", "plain reader values differ from values written", breq+" | "+rq, rs, strings.Join(exp2, ","))
 			}
-			// plain bytes escaped == ebsp output without the trailing bits? (only when byte aligned)
+			// a prefix of the fields, then Reader.ReadRemainingBytes: the rest of the bytes at a byte boundary
+			if i%3 == 0 {
+				cut := c.R.Intn(len(pw) + 1)
+				cbits := 0
+				var cops, cexp []string
+				for k := 0; k < cut; k++ {
+					w, _ := strconv.Atoi(strings.Split(pw[k], ":")[0])
+					cbits += w
+					cops = append(cops, strconv.Itoa(w))
+					cexp = append(cexp, strings.Split(pw[k], ":")[1])
+				}
+				all, _ := unhx(bres)
+				q := "br " + bres + " " + strings.Join(append(cops, "rem"), " ")
+				qs := execC13(q)
+				c.Case(q, qs)
+				// direct oracle only at a byte boundary (what happens elsewhere is compared with the model only)
+				if cbits%8 == 0 && cbits/8 <= len(all) {
+					want := strings.Join(append(cexp, "x"+hx(all[cbits/8:])), ",") + " ok "
+					if !strings.HasPrefix(qs, want) {
+						c.Fail("C13-plain-remaining", "ReadRemainingBytes after a prefix of the fields does not return the remaining bytes written", breq+" | "+q, qs, want)
+					}
+				}
+				c.Count("plain-remaining")
+			}
 			c.Eval("")
 		}
 		// reader on arbitrary (not writer-produced) bytes: model must agree incl. error state
